@@ -1,0 +1,8 @@
+//go:build !verif
+// +build !verif
+
+package utxo
+
+// VerifYield marks a yield point of the admission protocol for builds with the verif tag
+// (see yield_verif.go); without the tag it does nothing.
+func VerifYield(point string) {}
